@@ -1,7 +1,7 @@
 (* C08: the routing model (Route.Exchange) against the AMQP rules (Route.Spec). *)
 From Coq Require Import List NArith ZArith Bool Arith Lia Permutation.
 Import ListNotations.
-From GMQ Require Import Route.Value Route.Cfg Route.Topic Route.Exchange Route.Spec Proofs.RouteTopicProofs.
+From GMQ Require Import Route.Value Route.Cfg Route.Topic Route.Exchange Route.Spec Route.gen.RouteGen Proofs.RouteTopicProofs.
 Open Scope N_scope.
 
 (* ------------------------------------------------------------------ bytes *)
@@ -787,4 +787,96 @@ Proof.
     apply match_direct_spec in Hmd. simpl in *. destruct Hmd as [_ Hk]. subst. auto.
   - intros [Hi Hk]. right. exists (default_binding q). split; [apply Hbs; exists q; auto|].
     split; [|reflexivity]. apply match_direct_spec. simpl. rewrite Hm. auto.
+Qed.
+
+Corollary default_exchange_routes_by_name_full : forall c ops, cfg_sane c = true ->
+  c_bind_refuses_default c = true -> c_unbind_refuses_default c = true ->
+  c_default_binding_on_declare c = true ->
+  let t := topo_run c (topo_init c) ops in
+  exists e, find_exchange (t_exchanges t) [] = Some e /\
+    forall m, m_exchange m = [] ->
+      exists l, matched_queues c e m = Some l /\ forall q, In q l <-> default_route_spec (t_queues t) m q.
+Proof.
+  intros c ops Hc Hb Hu Hd. apply default_exchange_routes_by_name; try assumption.
+  apply Forall_forall. intros op _. destruct op; simpl; auto.
+Qed.
+
+(* ------------------------------------------------------------------ refutations of the unrepaired code *)
+Definition bq (q key : bytes) (args : option table) (mt : match_type) : binding :=
+  {| b_queue := q; b_exchange := [101]; b_key := key; b_args := args; b_topic := false; b_match := mt |}.
+
+(* F04: with the early return of the direct loop, the second queue bound with the same key is missed *)
+Lemma direct_early_return_refuted : forall c, cfg_sane c = true ->
+  exists ex m q, kind_of c (ex_type ex) = Some KDirect /\ Forall (binding_wf c KDirect) (ex_bindings ex) /\
+    route_spec true KDirect (ex_bindings ex) m q /\
+    exists l, matched_queues (cfg_set c true (c_cmp c) (c_unbind_refuses_default c)) ex m = Some l /\ ~ In q l.
+Proof.
+  intros c Hc. pose proof (cfg_sane_sane c Hc) as S.
+  exists {| ex_name := [101]; ex_type := c_direct c;
+            ex_bindings := [bq [113; 49] [107] None MatchAll; bq [113; 50] [107] None MatchAll] |}.
+  exists {| m_exchange := [101]; m_key := [107]; m_headers := None; m_mandatory := false |}.
+  exists [113; 50]. split; [unfold kind_of; simpl; rewrite N.eqb_refl; reflexivity|].
+  split; [repeat constructor|].
+  split.
+  - exists (bq [113; 50] [107] None MatchAll). simpl. auto.
+  - exists [[113; 49]]. split.
+    + unfold matched_queues. simpl. rewrite N.eqb_refl. reflexivity.
+    + simpl. intros [H|[]]. discriminate.
+Qed.
+
+(* F11: with `==` on interface values a []byte argument met by a []byte header panics *)
+Lemma iface_eq_panics : forall c, cfg_sane c = true ->
+  exists ex m, kind_of c (ex_type ex) = Some KHeaders /\ Forall (binding_wf c KHeaders) (ex_bindings ex) /\
+    matched_queues (cfg_set c (c_early_direct c) CmpIfaceEq (c_unbind_refuses_default c)) ex m = None.
+Proof.
+  intros c Hc. pose proof (cfg_sane_sane c Hc) as S.
+  destruct (n_distinct4_spec _ _ _ _ (s_ids c S)) as [D1 [D2 [D3 [D4 [D5 D6]]]]].
+  exists {| ex_name := [101]; ex_type := c_headers c;
+            ex_bindings := [bq [113] [] (Some [([104], VBytes [1])]) MatchAll] |}.
+  exists {| m_exchange := [101]; m_key := []; m_headers := Some [([104], VBytes [1])]; m_mandatory := false |}.
+  split; [|split].
+  - unfold kind_of. simpl.
+    rewrite (proj2 (N.eqb_neq _ _)) by congruence. rewrite (proj2 (N.eqb_neq _ _)) by congruence.
+    rewrite (proj2 (N.eqb_neq _ _)) by congruence. rewrite N.eqb_refl. reflexivity.
+  - constructor; [|constructor]. unfold binding_wf, new_binding. simpl.
+    rewrite (s_xm c S). simpl. rewrite (s_def c S). reflexivity.
+  - unfold matched_queues. simpl.
+    rewrite (proj2 (N.eqb_neq _ _)) by congruence. rewrite (proj2 (N.eqb_neq _ _)) by congruence.
+    rewrite (proj2 (N.eqb_neq _ _)) by congruence. rewrite N.eqb_refl.
+    unfold match_header. simpl. rewrite (s_xp c S). reflexivity.
+Qed.
+
+(* F51 (open): a message without a headers table misses a binding whose argument table has
+   nothing to match, although `all` over zero arguments holds *)
+Lemma no_headers_table_refuted : forall c, cfg_sane c = true ->
+  exists ex m q, kind_of c (ex_type ex) = Some KHeaders /\ Forall (binding_wf c KHeaders) (ex_bindings ex) /\
+    route_spec true KHeaders (ex_bindings ex) m q /\ matched_queues c ex m = Some [].
+Proof.
+  intros c Hc. pose proof (cfg_sane_sane c Hc) as S.
+  destruct (n_distinct4_spec _ _ _ _ (s_ids c S)) as [D1 [D2 [D3 [D4 [D5 D6]]]]].
+  exists {| ex_name := [101]; ex_type := c_headers c; ex_bindings := [bq [113] [] (Some []) MatchAll] |}.
+  exists {| m_exchange := [101]; m_key := []; m_headers := None; m_mandatory := false |}.
+  exists [113]. split; [|split; [|split]].
+  - unfold kind_of. simpl.
+    rewrite (proj2 (N.eqb_neq _ _)) by congruence. rewrite (proj2 (N.eqb_neq _ _)) by congruence.
+    rewrite (proj2 (N.eqb_neq _ _)) by congruence. rewrite N.eqb_refl. reflexivity.
+  - constructor; [|constructor]. unfold binding_wf, new_binding. simpl. rewrite (s_def c S). reflexivity.
+  - exists (bq [113] [] (Some []) MatchAll). simpl. repeat split; auto.
+    unfold headers_rule. simpl. constructor.
+  - unfold matched_queues. simpl.
+    rewrite (proj2 (N.eqb_neq _ _)) by congruence. rewrite (proj2 (N.eqb_neq _ _)) by congruence.
+    rewrite (proj2 (N.eqb_neq _ _)) by congruence. rewrite N.eqb_refl.
+    reflexivity.
+Qed.
+
+(* F50: when queue.unbind accepts the default exchange, the implicit binding can be removed
+   (stated for the configuration read from the code, with the refusal switched off) *)
+Lemma unbind_default_refuted :
+  let c' := cfg_set gen_cfg (c_early_direct gen_cfg) (c_cmp gen_cfg) false in
+  exists ops q e, let t := topo_run c' (topo_init c') ops in
+    In q (t_queues t) /\ find_exchange (t_exchanges t) [] = Some e /\
+    matched_queues c' e {| m_exchange := []; m_key := q; m_headers := None; m_mandatory := true |} = Some [].
+Proof.
+  exists [TDeclareQueue [113]; TUnbind [113] [] [113] (Some [])]. exists [113].
+  eexists. vm_compute. split; [left; reflexivity|]. split; reflexivity.
 Qed.
